@@ -110,6 +110,16 @@ def reactor_cases(rng, tier):
     out.append(('near-coincident-power-cells', c))
     cl = scenarios.core_lattice(rng, tier)
     out.append(cl[0])
+    # one type, one flow rate, different powers, temperature-dependent
+    # coolant: the requirement differs from assembly to assembly
+    from harness.scenarios import fitted_type, layout_positions
+    A1 = fitted_type(2, 0.060)
+    lay = [(r_, p_, 'A') for (r_, p_) in layout_positions(7)]
+    npin = cases.n_pins(2)
+    out.append(('one-type-one-flow-hot-first', make_core(
+        rng, {'A': A1}, lay, [flow_for(A1, 0.05)] * 7, gap_model='no_flow',
+        coolant='sodium', bypass_fraction=0.0,
+        asm_power=[2.0e4 * npin * f for f in (2.0, .1, .1, .1, .1, .1, .1)])))
     # inter-assembly flow so small that the requirement floors to zero
     c = copy.deepcopy(cl[3][1])
     c['bypass_fraction'] = 2e-7
